@@ -3,6 +3,7 @@ package main
 import (
 	"flag"
 	"fmt"
+	"go/token"
 	"go/types"
 	"os"
 	"path/filepath"
@@ -23,6 +24,7 @@ type Engine struct {
 	spec   *Spec
 	fns    map[string]*ssa.Function // pkg::key
 	srcTxt map[string][]string
+	constGlobals map[string]bool // SMT names of package-level variables written only by package initialisation
 	interior map[string]bool // module struct types that occur by value inside other structs, arrays or slices
 }
 
@@ -119,7 +121,57 @@ func load(dir string) (*Engine, error) {
 		e.fns[f.Pkg.Pkg.Path()+"::"+f.RelString(f.Pkg.Pkg)] = f
 	}
 	e.computeInterior()
+	e.scanConstGlobals(pkgs)
 	return e, nil
+}
+
+// scanConstGlobals finds the package-level variables of the repository that are written only by package
+// initialisation: no instruction outside an init function stores to them or takes their address for anything
+// but a load. Such a variable holds the same value in every state a function under contract can observe.
+func (e *Engine) scanConstGlobals(roots []*packages.Package) {
+	e.constGlobals = map[string]bool{}
+	inRepo := map[string]bool{}
+	for _, p := range roots {
+		inRepo[p.PkgPath] = true
+	}
+	written := map[*ssa.Global]bool{}
+	for f := range ssautil.AllFunctions(e.prog) {
+		if f.Pkg == nil {
+			continue
+		}
+		isInit := f.Name() == "init" || strings.HasPrefix(f.Name(), "init#")
+		if isInit && f.Parent() == nil {
+			continue
+		}
+		for _, b := range f.Blocks {
+			for _, in := range b.Instrs {
+				if u, ok := in.(*ssa.UnOp); ok && u.Op == token.MUL {
+					continue
+				}
+				if _, ok := in.(*ssa.DebugRef); ok {
+					continue
+				}
+				for _, op := range in.Operands(nil) {
+					if op == nil || *op == nil {
+						continue
+					}
+					if g, ok := (*op).(*ssa.Global); ok {
+						written[g] = true
+					}
+				}
+			}
+		}
+	}
+	for path, p := range e.pkgs {
+		if !inRepo[path] {
+			continue
+		}
+		for _, m := range p.Members {
+			if g, ok := m.(*ssa.Global); ok && !written[g] {
+				e.constGlobals["g_"+sanitize(g.Pkg.Pkg.Name()+"_"+g.Name())] = true
+			}
+		}
+	}
 }
 
 // loadContracts gathers the //@ contracts: trusted external contracts from <verif>/contracts/*.spec
